@@ -323,6 +323,19 @@ func SerializeEntries(entries []EntryV3, compression Compression) []byte {
 }
 
 func DeserializeEntries(data *bytes.Buffer, compression Compression) []EntryV3 {
+	entries, err := deserializeEntriesChecked(data, compression)
+	if err == errUnsupportedCompression {
+		panic("Compression not supported")
+	}
+	return entries
+}
+
+var errUnsupportedCompression = errors.New("compression not supported")
+
+// deserializeEntriesChecked decodes a directory like DeserializeEntries but reports
+// malformed input (bad gzip stream, truncated columns, unsupported compression) as an
+// error instead of panicking or inventing zero-valued entries.
+func deserializeEntriesChecked(data *bytes.Buffer, compression Compression) ([]EntryV3, error) {
 	entries := make([]EntryV3, 0)
 
 	var reader io.Reader
@@ -330,33 +343,52 @@ func DeserializeEntries(data *bytes.Buffer, compression Compression) []EntryV3 {
 	if compression == NoCompression {
 		reader = data
 	} else if compression == Gzip {
-		reader, _ = gzip.NewReader(data)
+		gzipReader, err := gzip.NewReader(data)
+		if err != nil {
+			return entries, err
+		}
+		reader = gzipReader
 	} else {
-		panic("Compression not supported")
+		return entries, errUnsupportedCompression
 	}
 	byteReader := bufio.NewReader(reader)
 
-	numEntries, _ := binary.ReadUvarint(byteReader)
+	numEntries, err := binary.ReadUvarint(byteReader)
+	if err != nil {
+		return entries, err
+	}
 
 	lastID := uint64(0)
 	for i := uint64(0); i < numEntries; i++ {
-		tmp, _ := binary.ReadUvarint(byteReader)
+		tmp, err := binary.ReadUvarint(byteReader)
+		if err != nil {
+			return entries, err
+		}
 		entries = append(entries, EntryV3{lastID + tmp, 0, 0, 0})
 		lastID = lastID + tmp
 	}
 
 	for i := uint64(0); i < numEntries; i++ {
-		runLength, _ := binary.ReadUvarint(byteReader)
+		runLength, err := binary.ReadUvarint(byteReader)
+		if err != nil {
+			return entries, err
+		}
 		entries[i].RunLength = uint32(runLength)
 	}
 
 	for i := uint64(0); i < numEntries; i++ {
-		length, _ := binary.ReadUvarint(byteReader)
+		length, err := binary.ReadUvarint(byteReader)
+		if err != nil {
+			return entries, err
+		}
 		entries[i].Length = uint32(length)
 	}
 
 	for i := uint64(0); i < numEntries; i++ {
-		tmp, _ := binary.ReadUvarint(byteReader)
+		tmp, err := binary.ReadUvarint(byteReader)
+		if err != nil {
+			return entries, err
+		}
 		if i > 0 && tmp == 0 {
 			entries[i].Offset = entries[i-1].Offset + uint64(entries[i-1].Length)
 		} else {
@@ -364,7 +396,7 @@ func DeserializeEntries(data *bytes.Buffer, compression Compression) []EntryV3 {
 		}
 	}
 
-	return entries
+	return entries, nil
 }
 
 func findTile(entries []EntryV3, tileID uint64) (EntryV3, bool) {
